@@ -263,7 +263,9 @@ class ParamikoTransport(Transport):
         self._pre_open_closing_log(closing=True)
 
         if self.session_channel:
-            self.session_channel.close()
+            with suppress(OSError, EOFError):
+                # the connection may already be broken; we are closing anyway
+                self.session_channel.close()
 
             if self.socket:
                 self.socket.close()
